@@ -73,7 +73,7 @@ impl<S: Read + Write + Duplex> RdpClient<S> {
 pub open spec fn offered(use_nla: bool) -> u32 { if use_nla { 3u32 } else { 1u32 } }
 pub open spec fn sel(restricted: bool, s: Seq<char>) -> Seq<char> { if restricted { Seq::<char>::empty() } else { s } }
 """, mod="client", name="connector_specs"))
-A(Fn(CLI, "connect", impl=r"impl Connector", mod="client", props=["C17", "C02", "C03"],
+A(Fn(CLI, "connect", impl=r"impl Connector", mod="client", props=["C17", "C02", "C03", "C11", "C12"],
      # ghost snapshots are kept in hint entries of their own (no assertion inside) so that they survive a hint-free re-run
      hints=[(r"let x224 = x224::Client::connect\(", 1, """let ghost w0 = tcp.written();
         let ghost req = w0 + tpkt::tpkt_frame(x224::conn_req_bytes((if self.restricted_admin_mode { 1u8 } else { 0u8 }), protocols));""", "before"),
@@ -95,7 +95,7 @@ A(Fn(CLI, "connect", impl=r"impl Connector", mod="client", props=["C17", "C02", 
      claims=[(r"let x224 = x224::Client::connect\([^;]*\)\?;", 1, "proof { assert(x224.cert_checked() == self.check_certificate); }", "after", "C02", "certificate-check-is-the-configured-one")],
      requires=["old(self).domain@.len() <= 512 && old(self).username@.len() <= 512 && old(self).password@.len() <= 512", "stream.rest().len() >= 0"],
      ensures=[("C02", "tls-before-client-info", "r is Ok ==> r->Ok_0.tls()"),
-              ("C03", "identifiers-threaded", "r is Ok ==> r->Ok_0.connected() && r->Ok_0.global_uid() == r->Ok_0.mcs_uid()->Some_0 && r->Ok_0.global_channel() == r->Ok_0.global_chan()"),
+              ("C03,C11,C12,C10", "identifiers-threaded", "r is Ok ==> r->Ok_0.connected() && r->Ok_0.global_uid() == r->Ok_0.mcs_uid()->Some_0 && r->Ok_0.global_channel() == r->Ok_0.global_chan()"),
               ("C17,C03", "request-announces-mode-and-offer", "r is Ok ==> is_prefix(stream.written() + tpkt::tpkt_frame(x224::conn_req_bytes((if old(self).restricted_admin_mode { 1u8 } else { 0u8 }), offered(old(self).use_nla))), r->Ok_0.wire())"),
               ("C17", "client-info-last-with-mode-dependent-credentials", """r is Ok ==> exists|pre: Seq<u8>, ext: Seq<u8>| #![trigger sec::info_packet(sel(old(self).restricted_admin_mode, old(self).domain@), sel(old(self).restricted_admin_mode, old(self).username@), sel(old(self).restricted_admin_mode, old(self).password@), old(self).auto_logon, ext), pre.len()]
                     r->Ok_0.wire() =~= pre + mcs::mcs_frame(r->Ok_0.mcs_uid()->Some_0, r->Ok_0.global_chan(),
@@ -126,6 +126,11 @@ _setter("blank_creds", {"blank_creds": "blank_creds"}, ["C17"])
 _setter("check_certificate", {"check_certificate": "check_certificate"}, ["C02"])
 _setter("name", {"name": "name"}, ["C03", "C04"])
 _setter("use_nla", {"use_nla": "use_nla"}, ["C02", "C17"])
+
+# the constructor: nothing is "requested" by default (C17: the auto-logon flag is set exactly when requested; restricted admin / blank credentials /
+# hash login are opt-in)
+A(Fn(CLI, "new", impl=r"impl Connector", mod="client", ret="r", props=["C17"],
+     ensures=[("C17", "nothing-requested-by-default", "!r.auto_logon && !r.restricted_admin_mode && !r.blank_creds && r.password_hash is None")]))
 
 UNIT = Unit("connector", M.UNIT.preludes, items,
             uses=dict(M.UNIT.uses, sec=["use super::mcs;", "use super::tpkt;"], client=["use super::x224;", "use super::mcs;", "use super::tpkt;", "use super::sec;", "use super::global;", "use super::link::*;", "use super::gcc::KeyboardLayout;", "use super::ntlm::Ntlm;", "use super::sspi::*;"],
